@@ -323,12 +323,28 @@ class Types:
         for rx, ct in self.extra.items():
             if re.fullmatch(rx, t):
                 return self.note(ct, self.cfg.get('type_kinds', {}).get(ct, 'handle'))
+        if re.match(r'^(const )?char ?\[\d*\]$', t) or t in ('char *', 'const char *', 'char *const', 'const char *const'):
+            return self.note('str_t', 'handle')      # C strings: interned like std::string
         if t in SCALARS:
             return self.note(SCALARS[t], 'scalar')
+        m = re.match(r'^std::(?:remove_reference|remove_cv|remove_const|decay|remove_cvref)<(.*)>::type$', t)
+        if m:
+            inner = strip_cvref(m.group(1))
+            if not inner.startswith(('std::', 'Oomd::')) and '<' in inner:
+                inner = 'std::' + inner
+            return self.ctype(inner)
         m = re.match(r'^(?:__gnu_cxx::__enable_if|std::enable_if)<(.*)>::_*type$', t)
         if m:
             a = split_targs(m.group(1))
             return self.ctype(a[1] if len(a) > 1 else 'void')
+        if t.endswith('::element_type') and t[:-len('::element_type')].endswith('>'):
+            base = self.ctype(t[:-len('::element_type')])
+            if base.startswith('vec_'):
+                return base
+            e = self.elem.get(base)
+            if e is None:
+                raise Unsupported('member type %r' % t)
+            return e
         for suf in ('::pointer', '::reference'):
             if t.endswith(suf) and t[:-len(suf)].endswith('>'):
                 base = self.ctype(t[:-len(suf)])
@@ -367,21 +383,31 @@ class Types:
                     'std::__optional_gt_t', 'std::__optional_le_t', 'std::__optional_ge_t'):
             return self.note('_Bool', 'scalar')
         if args is None:
+            if t == 'Oomd::SystemError':
+                return self.note('exc_t', 'handle')
             if t.startswith('Oomd::'):
+                al = self.index.aliases.get(t)
+                if al and strip_cvref(al) != t and t not in self.index.records and t not in self.index.enums:
+                    return self.ctype(al)
                 return self.oomd_type(t)
             if t == 'std::string':
                 return self.note('str_t', 'handle')
             if t in ('std::mutex',):
                 return self.note('mutex_t', 'handle')
-            if t == 'std::exception':
+            if t in ('std::exception', 'std::system_error', 'std::runtime_error', 'std::invalid_argument',
+                     'std::out_of_range', 'std::logic_error', 'std::error_code', 'std::bad_optional_access'):
                 return self.note('exc_t', 'handle')
+            if t in ('FILE', '_IO_FILE', 'struct _IO_FILE'):
+                return self.note('FILE_t', 'handle')
+            if t in ('DIR', '__dirstream', 'struct __dirstream'):
+                return self.note('DIR_t', 'handle')
             if t == 'std::thread':
                 return self.note('thread_t', 'handle')
             if t == 'std::condition_variable':
                 return self.note('condvar_t', 'handle')
             if t.startswith('(lambda at'):
                 return self.note('lambda_t', 'handle')
-            al = self.index.aliases.get(t) or self.index.aliases.get(t.split('::')[-1])
+            al = self.index.aliases.get(t) or (self.index.aliases.get(t.split('::')[-1]) if '<' not in t else None)
             if al and strip_cvref(al) != t:
                 return self.ctype(al)
             for pre in ('Oomd::', 'Oomd::Engine::', 'Oomd::Fs::'):
@@ -406,7 +432,12 @@ class Types:
             if self.is_oomd_struct(e):
                 return e + ' *'      # a reference to a value object: aliasing is kept
             return e
-        if name == 'std::unique_ptr' or name == 'std::shared_ptr':
+        if name in ('std::shared_ptr', 'std::__shared_ptr', 'std::__shared_ptr_access'):
+            e = self.ctype(args[0])
+            if e.startswith('vec_'):
+                return e          # shared_ptr<vector<T>>: transparent (contents are abstract; identity not needed)
+            return self.note('uptr_' + sanitize(e), 'handle', e)
+        if name == 'std::unique_ptr':
             e = self.ctype(args[0])
             return self.note('uptr_' + sanitize(e), 'handle', e)
         if name == 'std::basic_string':
@@ -431,7 +462,7 @@ class Types:
             ct = 'pair_' + sanitize(a) + '_' + sanitize(b)
             self.pair_elems[ct] = (a, b)
             return self.note(ct, 'value')
-        if name == 'Oomd::SystemMaybe':
+        if name in ('Oomd::SystemMaybe', 'SystemMaybe'):
             e = self.ctype(args[0])
             return self.note('maybe_' + sanitize(e), 'value', e)
         if name == 'std::chrono::time_point':
@@ -461,6 +492,8 @@ class Types:
             return self.note('deqit_' + sanitize(e), 'value', e)
         if name == 'std::function':
             return self.note('function_t', 'handle')
+        if name in ('std::fpos',):
+            return self.note('log_t', 'handle')
         if name in ('std::lock_guard', 'std::unique_lock'):
             return self.note('lock_t', 'handle')
         if name == 'std::atomic':
@@ -688,6 +721,10 @@ class FnEmitter:
             if rid in self.idx.qname and rk == 'VarDecl' and rid not in self.u.local_ids:
                 # namespace-scope / static member variable of Oomd
                 return self.u.global_var(rid, r)
+            if rk == 'VarDecl' and rid not in self.u.local_ids:
+                v = self.u.file_scope_string(name)
+                if v is not None:
+                    return v
             return nm
         if rk in ('FunctionDecl', 'CXXMethodDecl'):
             return self.callee_name(r, None, [])
@@ -813,7 +850,9 @@ class FnEmitter:
             sub = self.strip(a)
             sct = self.ct(a)
             e = self.expr(a)
-            if self.ty.kind(sct) == 'handle':
+            at = a.get('type', {})
+            aq = strip_cvref(at.get('desugaredQualType') or at.get('qualType') or '')
+            if self.ty.kind(sct) == 'handle' and not aq.endswith('*'):
                 return e      # address of opaque object == its handle
             return '(&%s)' % e
         if op == '*':
@@ -880,6 +919,8 @@ class FnEmitter:
         rid = ref.get('id')
         name = ref.get('name', '')
         q = self.idx.qname.get(rid)
+        if q and q.startswith('Oomd::SystemMaybe::'):
+            q = None        # library type: named after the instantiation's C type
         if q and q.startswith('Oomd'):
             short = q[len('Oomd::'):]
             if short.startswith('Engine::'):
@@ -938,10 +979,13 @@ class FnEmitter:
         if is_log_type(obj.get('type')):
             return self.log_expr(n)
         ot = obj.get('type', {})
-        if 'reference_wrapper' in (ot.get('desugaredQualType') or ot.get('qualType') or '') and (
+        if strip_cvref(ot.get('desugaredQualType') or ot.get('qualType') or '').startswith('std::reference_wrapper<') and (
                 mname == 'get' or mname.startswith('operator ')):
             if self.ct(obj).endswith(' *'):
                 return '(*%s)' % self.expr(obj)
+            return self.expr(obj)
+        if 'shared_ptr' in strip_cvref(ot.get('desugaredQualType') or ot.get('qualType') or '').split('<')[0] \
+                and self.ct(obj).startswith('vec_') and mname in ('get', 'operator->', 'operator*'):
             return self.expr(obj)
         rid = cal.get('referencedMemberDecl')
         inlined = self.u.try_inline_method(self, rid, obj, args, n)
@@ -960,6 +1004,8 @@ class FnEmitter:
             oe, octn = self.obj_arg(obj, mut)
         ref = {'id': rid, 'name': mname}
         cn = self.callee_name(ref, octn, arg_cts)
+        if cn == self.cname and not getattr(self, 'is_lambda', False):
+            cn += '__rec'       # recursive call: verified against the function's own contract (declared as NAME__rec in the spec)
         al = [oe] + [self.call_arg(a, ref, i) for i, a in enumerate(args)
                      if a.get('kind') != 'CXXDefaultArgExpr']
         return self.ref_result(n, rid, '%s(%s)' % (cn, ', '.join(al)))
@@ -1001,6 +1047,14 @@ class FnEmitter:
             if name in ('move', 'forward', 'ref', 'cref', 'addressof') and len(args) == 1 \
                     and ref.get('id') not in self.idx.qname:
                 return self.expr(args[0])
+            if name == 'make_shared' and ref.get('id') not in self.idx.qname:
+                rct = self.ct(n)
+                if rct.startswith('vec_'):
+                    return self.expr(args[0]) if args else '%s__ctor0()' % rct
+            if name == 'systemError' and args:
+                # Oomd::systemError(code, message parts...): the message text is not modelled
+                self.dropped.append('error message text of SYSTEM_ERROR at line %s' % self.loc(n))
+                return 'systemError__%s(%s)' % (sanitize(self.ct(args[0])), self.expr(args[0]))
             arg_cts = [self.ct(a) for a in args]
             cn = self.callee_name(ref, None, arg_cts)
             if cn.startswith('ext__') and self.ty:
@@ -1030,6 +1084,10 @@ class FnEmitter:
         a0 = args[0]
         ct0 = self.ct(a0)
         k0 = self.ty.kind(ct0)
+        t0 = a0.get('type', {})
+        if op in ('*', '->') and len(args) == 1 and ct0.startswith('vec_') and \
+                'shared_ptr' in strip_cvref(t0.get('desugaredQualType') or t0.get('qualType') or '').split('<')[0]:
+            return self.expr(a0)
         if op == '()' and ref.get('id') is not None:
             lam = self.lambda_call(n, a0, args[1:])
             if lam is not None:
@@ -1053,7 +1111,7 @@ class FnEmitter:
         mut = op in MUTATING_OPS and not (op == '[]' and ct0.startswith('vec_'))
         rid = ref.get('id')
         q = self.idx.qname.get(rid)
-        if q and q.startswith('Oomd'):
+        if q and q.startswith('Oomd') and not q.startswith('Oomd::SystemMaybe::'):
             cn = self.callee_name(ref, None, [self.ct(a) for a in args[1:]])
             # member operator: first arg is the object
             e0 = self.expr(a0)
@@ -1106,6 +1164,32 @@ class FnEmitter:
     def e_LambdaExpr(self, n):
         return self.u.lift_lambda(self, n)
 
+    def e_UserDefinedLiteral(self, n):
+        ct = self.ct(n)
+        lit = None
+
+        def find(x):
+            nonlocal lit
+            if x.get('kind') in ('IntegerLiteral', 'FloatingLiteral') and lit is None:
+                lit = x
+            for c in kids(x):
+                find(c)
+        find(n)
+        if lit is not None and lit['kind'] == 'IntegerLiteral':
+            return '%s__from__int64_t(%sL)' % (sanitize(ct), lit['value'])
+        # template literal operator (e.g. 1s): take the digits from the source token
+        b = n.get('range', {}).get('begin', {})
+        b = b.get('expansionLoc', b)
+        off, ln = b.get('offset'), b.get('tokLen')
+        try:
+            tok = open(os.path.join(self.u.repo, self.u.cfg['tu']), 'rb').read()[off:off + ln].decode()
+        except Exception:
+            tok = ''
+        m = re.match(r'^(\d+)[a-z]+$', tok)
+        if not m:
+            self.unsupported(n, 'user-defined literal %r' % tok)
+        return '%s__from__int64_t(%sL)' % (sanitize(ct), m.group(1))
+
     def e_CXXThrowExpr(self, n):
         self.unsupported(n, '(throw as expression)')
 
@@ -1141,7 +1225,7 @@ class FnEmitter:
         self.dropped.append('log expression at line %s' % self.loc(n))
         if ctrl:
             return 'ghost_log_control(%d)' % (1 if ctrl[-1] == 'ENABLE' else 0)
-        return '((void)0)'
+        return 'LOG_VALUE'
 
     # -- lambdas
     def lambda_call(self, n, callee, args):
@@ -1159,9 +1243,23 @@ class FnEmitter:
         if m is not None:
             return m(n)
         # expression statement
+        root = self.strip(n)
+        if root.get('kind') == 'ConditionalOperator':
+            c, a, b = kids(root)
+            sa, sb = self.strip(a), self.strip(b)
+            if sb.get('kind') == 'CXXThrowExpr' or sa.get('kind') == 'CXXThrowExpr':
+                # (cond) ? void(0) : throw e     (OCHECK_EXCEPT)
+                thr, other, neg = (sb, a, True) if sb.get('kind') == 'CXXThrowExpr' else (sa, b, False)
+                self.w('if (%s(%s))' % ('!' if neg else '', self.expr(c)))
+                self.w('{')
+                self.ind += 1
+                self.u.exc.throw_stmt(self, thr)
+                self.ind -= 1
+                self.w('}')
+                return
         if is_log_type(n.get('type')):
             e = self.log_expr(n)
-            if e != '((void)0)':
+            if e != 'LOG_VALUE':
                 self.w(e + ';')
             return
         self.w(self.expr(n) + ';')
@@ -1230,16 +1328,30 @@ class FnEmitter:
         # scope guard
         if 'ScopeGuard' in qt or 'ScopeGuard' in dq:
             return self.scope_guard(d, init)
+        if d['name'] in self.cfg.get('drop_locals', []):
+            self.dropped.append('local %s at line %s (listed in drop_locals: used only by opaque lambdas)' % (name, self.loc(d)))
+            return
         if init is not None and self.strip_all(init).get('kind') == 'LambdaExpr':
-            self.lambda_vars[d['id']] = self.strip_all(init)
-            self.u.register_lambda(self, self.strip_all(init), name)
+            lam = self.strip_all(init)
+            self.lambda_vars[d['id']] = lam
+            if d['name'] in self.cfg.get('opaque_lambdas', []):
+                lam['_cname'] = '%s__lambda_%s' % (self.cname, name)
+                lam['_call_extra'] = []
+                self.dropped.append('body of lambda %s at line %s: NOT extracted, treated as a boundary stub' % (name, self.loc(d)))
+                return
+            self.u.register_lambda(self, lam, name)
             return
         ct = self.ty.ctype_of(tq)
         if ct == 'lock_t':
             return self.lock_guard(d, init)
+        raii = self.cfg.get('raii_types', {}).get(ct)
+        if raii and not (qt.endswith('&') or dq.endswith('&')):
+            # a local whose destructor matters: its scope-exit action is emitted at every exit of the scope
+            self.guards.append((self.scope_depth, ['%s(&%s); /* destructor of %s (declared at line %s) */' % (
+                raii, name, name, self.loc(d))]))
         is_ref = qt.endswith('&') or dq.endswith('&')
         is_const = qt.startswith('const ') or dq.startswith('const ')
-        if d.get('storageClass') == 'static':
+        if d.get('storageClass') == 'static' and not (d.get('constexpr') and init is not None):
             self.unsupported(d, 'static local')
         if init is None:
             if self.ty.kind(ct) == 'scalar' or ct.endswith('*'):
@@ -1554,7 +1666,23 @@ class FnEmitter:
             self.ret_ct = 'void'
         else:
             rt_node = {'qualType': rt}
-            self.ret_ct = self.ty.ctype(self.u.desugar_ret(fn, rt))
+            if rt.strip() in ('auto', 'decltype(auto)'):
+                # deduced return type: the type of the first return statement's operand
+                found = []
+
+                def find_ret(x):
+                    if x.get('kind') == 'ReturnStmt' and not found:
+                        ks = kids(x)
+                        found.append(self.ct(ks[0]) if ks else 'void')
+                    if x.get('kind') != 'LambdaExpr' or x is fn:
+                        for c in kids(x):
+                            find_ret(c)
+                for c in body:
+                    find_ret(c)
+                self.ret_ct = found[0] if found else 'void'
+                rt = ''
+            else:
+                self.ret_ct = self.ty.ctype(self.u.desugar_ret(fn, rt))
             self.ret_by_ref = False
             if rt.rstrip().endswith('&') and not rt.rstrip().endswith('&&') and \
                     self.ty.is_oomd_struct(self.ret_ct):
@@ -1562,7 +1690,7 @@ class FnEmitter:
                 self.ret_by_ref = True
         ps = []
         is_method = fn['kind'] in ('CXXMethodDecl', 'CXXConstructorDecl', 'CXXDestructorDecl') \
-            and fn.get('storageClass') != 'static'
+            and fn.get('storageClass') != 'static' and not getattr(self, 'is_lambda', False)
         if is_method:
             ps.append('%s *self' % self.u.self_struct_name(self.qname))
         for p in params:
@@ -1812,6 +1940,18 @@ class Unit:
                 return pre + t0
         return t0
 
+    def file_scope_string(self, name):
+        """`static constexpr auto kName = "text";` at file scope (outside namespace Oomd, hence not
+        in the AST dump): the literal is read from the translation unit's source text."""
+        try:
+            src = open(os.path.join(self.repo, self.cfg['tu'])).read()
+        except Exception:
+            return None
+        m = re.search(r'^\s*static\s+(?:constexpr\s+auto|auto\s+constexpr|const\s+char\s*\*\s*(?:const)?|constexpr\s+const\s+char\s*\*)\s*%s\s*=\s*"((?:[^"\\]|\\.)*)"\s*;' % re.escape(name), src, re.M)
+        if not m:
+            return None
+        return self.strlit(m.group(1))
+
     def global_var(self, rid, r):
         node = self.index.node.get(rid)
         if node is not None:
@@ -1865,6 +2005,7 @@ class Unit:
         if op is None:
             raise Unsupported('%s: lambda without operator() at line %s' % (em.qname, em.loc(lam)))
         sub = FnEmitter(self, op, em.qname, lam['_cname'], em.cfg)
+        sub.is_lambda = True
         # captured variables: find DeclRefExprs in body that refer to enclosing locals
         captured = []
 
@@ -1894,7 +2035,23 @@ class Unit:
         own_decls(op)
         scan(body)
         scan_this(body)
+
+        def scan_lams(x):
+            if x.get('kind') == 'DeclRefExpr':
+                rid = x.get('referencedDecl', {}).get('id')
+                other = em.lambda_vars.get(rid)
+                if other is not None and other is not lam:
+                    for c in other.get('_captured', []):
+                        if c['id'] not in [k['id'] for k in captured]:
+                            captured.append(c)
+                    if other.get('_uses_this'):
+                        uses_this[0] = True
+            for c in kids(x):
+                scan_lams(c)
+        scan_lams(body)
         captured = [c for c in captured if c['id'] not in own]
+        lam['_captured'] = captured
+        lam['_uses_this'] = uses_this[0]
         sub.lambda_vars = em.lambda_vars
         extra = []
         call_extra = []
@@ -1930,7 +2087,14 @@ class Unit:
         em.dropped.extend(sub.dropped)
 
     def call_lambda(self, em, lam, args):
-        return '%s(%s)' % (lam['_cname'], ', '.join(lam['_call_extra'] + [em.expr(a) for a in args]))
+        extra = []
+        for x in lam['_call_extra']:
+            # inside another lifted lambda a by-reference capture is already a pointer parameter
+            if x.startswith('&') and getattr(em, 'is_lambda', False):
+                extra.append(x[1:])
+            else:
+                extra.append(x)
+        return '%s(%s)' % (lam['_cname'], ', '.join(extra + [em.expr(a) for a in args]))
 
     # -- function lookup
     def find_function(self, qname, pick=None):
